@@ -337,6 +337,43 @@ class NegatedOperators(ast.NodeTransformer):
         return node
 
 
+class SplitAnd(ast.NodeTransformer):
+    """if a and b: X   (no else)  ->  if a: if b: X"""
+    def visit_If(self, node):
+        self.generic_visit(node)
+        if not node.orelse and isinstance(node.test, ast.BoolOp) and isinstance(node.test.op, ast.And) and len(node.test.values) >= 2:
+            inner = node.body
+            for v in reversed(node.test.values[1:]):
+                inner = [ast.If(test=v, body=inner, orelse=[])]
+            return ast.If(test=node.test.values[0], body=inner, orelse=[])
+        return node
+
+
+class MergeNestedIf(ast.NodeTransformer):
+    """if a: if b: X   (neither has an else, nothing else in the outer body)  ->  if a and b: X"""
+    def visit_If(self, node):
+        self.generic_visit(node)
+        if not node.orelse and len(node.body) == 1 and isinstance(node.body[0], ast.If) and not node.body[0].orelse:
+            inner = node.body[0]
+            vals = (node.test.values if isinstance(node.test, ast.BoolOp) and isinstance(node.test.op, ast.And) else [node.test]) + \
+                   (inner.test.values if isinstance(inner.test, ast.BoolOp) and isinstance(inner.test.op, ast.And) else [inner.test])
+            return ast.If(test=ast.BoolOp(op=ast.And(), values=list(vals)), body=inner.body, orelse=[])
+        return node
+
+
+class ContinueToNested(ast.NodeTransformer):
+    """for ...: if c: continue; REST   ->   for ...: if not c: REST     (the guard is the first statement of the loop body, REST is non-empty)"""
+    def visit_For(self, node):
+        self.generic_visit(node)
+        b = node.body
+        if len(b) >= 2 and isinstance(b[0], ast.If) and not b[0].orelse and len(b[0].body) == 1 and isinstance(b[0].body[0], ast.Continue) \
+                and not any(isinstance(x, (ast.Continue,)) and False for x in b[1:]):
+            t = b[0].test
+            nt = t.operand if isinstance(t, ast.UnaryOp) and isinstance(t.op, ast.Not) else ast.UnaryOp(op=ast.Not(), operand=t)
+            node.body = [ast.If(test=nt, body=b[1:], orelse=[])]
+        return node
+
+
 def _transform_overlay(transformer) -> Dict[str, str]:
     out = {}
     for dp, _dn, fn in os.walk(os.path.join(SRC, "krrood")):
@@ -368,6 +405,9 @@ TRANSFORMERS = {
     "whole-tree-reorder-methods": ReorderMethods,
     "whole-tree-hoist-conditions": HoistCondition,
     "whole-tree-negated-operators": NegatedOperators,
+    "whole-tree-split-conjunctions": SplitAnd,
+    "whole-tree-merge-nested-ifs": MergeNestedIf,
+    "whole-tree-continue-to-nested-if": ContinueToNested,
 }
 WHOLE_TREE = dict(TRANSFORMERS)
 
